@@ -118,7 +118,13 @@ func GenA4(t *rapid.T) A4Case {
 	c.Opt82 = rapid.SampledFrom([]string{"", "", "01046369726332", "0104636972630206aabbccddeeff", "13021a0a", "0103616263130204d2"}).Draw(t, "opt82")
 	c.Opt61 = rapid.Bool().Draw(t, "opt61")
 	c.YIAddr = net.IPv4(10, 10, 10, byte(rapid.IntRange(2, 250).Draw(t, "yi"))).String()
-	mac := rapid.SliceOfN(rapid.Byte(), 6, 6).Draw(t, "chaddr")
+	// hardware addresses that are not Ethernet-sized cannot be the destination of a link-level
+	// unicast: whatever is sent then must still not go to some other station
+	hl := 6
+	if rapid.IntRange(0, 3).Draw(t, "odd-hlen") == 0 {
+		hl = rapid.SampledFrom([]int{0, 1, 5, 7, 8, 15, 16}).Draw(t, "hlen")
+	}
+	mac := rapid.SliceOfN(rapid.Byte(), hl, hl).Draw(t, "chaddr")
 	c.CHAddr = hex.EncodeToString(mac)
 	return c
 }
@@ -133,6 +139,12 @@ func EnumA4() []A4Case {
 					for _, act := range []string{"addr", "zero", "nak"} {
 						for _, lst := range []string{"bound", "unbound", "unbound-other"} {
 							out = append(out, A4Case{GIAddr: gi, CIAddr: ci, Broadcast: bc, Request: rq, Action: act, YIAddr: "10.10.10.42", Listener: lst, CHAddr: "02aabbccddee"})
+							if gi == "" && ci == "" && !bc && act != "nak" && lst != "unbound-other" {
+								// the link-level row for hardware addresses that are not 6 bytes long
+								for _, ch := range []string{"", "02", "02aabbccdd", "02aabbccddee01", "02aabbfffeccddee", "02aabbccddee0102030405060708090a"} {
+									out = append(out, A4Case{Broadcast: bc, Request: rq, Action: act, YIAddr: "10.10.10.42", Listener: lst, CHAddr: ch})
+								}
+							}
 							if lst == "unbound" && !bc {
 								// the same row arriving from another source port, with relay agent information
 								out = append(out, A4Case{GIAddr: gi, CIAddr: ci, Broadcast: bc, Request: rq, Action: act, YIAddr: "10.10.10.42", Listener: lst, CHAddr: "02aabbccddee", SrcPort: 6767, SrcIP: "192.0.2.7", Opt82: "01046369726332", Opt61: true})
@@ -184,7 +196,8 @@ func ExecA4(c A4Case) (res core.Result) {
 		recvIdx = 4242 // no such interface
 		wantIf = 4242
 	}
-	p := gen.Pkt4{Op: 1, HType: 1, HLen: 6, Xid: 0xadd4, CHAddr: c.CHAddr, GIAddr: c.GIAddr, CIAddr: c.CIAddr}
+	mac, _ := hex.DecodeString(c.CHAddr)
+	p := gen.Pkt4{Op: 1, HType: 1, HLen: uint8(len(mac)), Xid: 0xadd4, CHAddr: c.CHAddr, GIAddr: c.GIAddr, CIAddr: c.CIAddr}
 	if c.Broadcast {
 		p.Flags = 0x8000
 	}
@@ -240,6 +253,14 @@ func ExecA4(c A4Case) (res core.Result) {
 		}
 		return
 	}
+	if wantL2 && len(mac) != 6 {
+		// an Ethernet frame cannot be addressed to this client: sending nothing is all that can
+		// be done; anything that is sent is judged below (a frame to some other station is wrong)
+		res.Classes = append(res.Classes, "l2-hlen-not-6")
+		if len(sent) == 0 {
+			return
+		}
+	}
 	if len(sent) != 1 {
 		res.Viol = core.Violate("C15/reply-count", "row %s: %d datagrams sent, want 1", row, len(sent))
 		return
@@ -255,7 +276,6 @@ func ExecA4(c A4Case) (res core.Result) {
 			res.Viol = core.Violate("C15/l2-frame-malformed", "frame does not decode")
 			return
 		}
-		mac, _ := hex.DecodeString(c.CHAddr)
 		if !bytes.Equal(f.dstMAC, mac) {
 			res.Viol = core.Violate("C15/l2-wrong-destination-mac", "frame sent to %v, client hardware address is %v", f.dstMAC, net.HardwareAddr(mac))
 			return
